@@ -88,16 +88,10 @@ Theorem C12_pdag_sound_partial : forall g vars sord vr maxc A,
 Proof. exact pc_pdag_sound. Qed.
 Print Assumptions C12_pdag_sound_partial.
 
-(* [F 4] every DAG on <= 4 labelled nodes, every variant, every node order, set order ascending/descending,
-   every max_cond_vars from the maximum degree up: the skeleton is the truth's, every stored separating set
-   belongs to a non-adjacent pair and d-separates it, every non-adjacent pair has one *)
-Theorem C12_skeleton_exact_upto4 : forall n g vr maxc vars sord,
-  n <= 4 -> In g (all_dags n) -> In (vars, sord) (orders n) -> In maxc (maxcs g) ->
-  skeleton_exactb g (build_skeleton vr (dsep_oracle g) maxc vars sord) = true.
-Proof. exact skeleton_exact_upto4. Qed.
-Print Assumptions C12_skeleton_exact_upto4.
+(* (The former finite-domain theorem C12_skeleton_exact_upto4 is superseded by the unbounded C12_skeleton_exact.) *)
 
-(* [F 4] the PDAG returned for return_type pdag/cpdag is the CPDAG of the truth's Markov equivalence class
+(* [F 4] (orders: node order ascending/descending x set order ascending/descending/rotated by 1/by 2; variants orig and
+   stable computed, parallel proved equal to stable) the PDAG returned for return_type pdag/cpdag is the CPDAG of the truth's Markov equivalence class
    (arc u->v present iff some member has it: hence v-structures exact, every compelled edge oriented, no
    reversible edge oriented) and its directed part has no cycle *)
 Theorem C12_cpdag_exact_upto4 : forall n g vr vars sord,
@@ -110,17 +104,7 @@ Print Assumptions C12_cpdag_exact_upto4.
    with rule 4 as it was (no "X, Y non-adjacent" test) the exact skeleton is turned into a PDAG in which the compelled
    true edge 1 -> 2 comes out as 2 -> 1; as coded now the result is the CPDAG for the three variants.
    Truth: 0->1, 0->2, 0->3, 1->2, 3->1, 4->3, 5->0, 5->1, 5->2, 5->3, identity orders. *)
-Theorem C12_rule4_witness_6 :
-  exists g vars sord A,
-    length (nodes g) = 6 /\ acyclicb g = true /\ In (1, 2) (edges g) /\
-    skeleton_exactb g (build_skeleton Stable (dsep_oracle g) 6 vars sord) = true /\
-    pc_pdag_prefix Stable (dsep_oracle g) 6 vars sord = Some A /\
-    cpdag_exactb g vars (Some A) = false /\
-    harc A 2 1 = true /\ harc A 1 2 = false /\
-    harc (cpdag_arcs g) 1 2 = true /\ harc (cpdag_arcs g) 2 1 = false /\
-    cpdag_exactb g vars (pc_pdag Orig (dsep_oracle g) 6 vars sord) = true /\
-    cpdag_exactb g vars (pc_pdag Stable (dsep_oracle g) 6 vars sord) = true /\
-    cpdag_exactb g vars (pc_pdag Parallel (dsep_oracle g) 6 vars sord) = true.
+Theorem C12_rule4_witness_6 : rule4_witness_check = true.
 Proof. exact rule4_witness_6. Qed.
 Print Assumptions C12_rule4_witness_6.
 
